@@ -244,6 +244,9 @@ def run(ctx, model):
         ("exact repetition, two digits", "Quantifier", "p{12}"), ("range with a two-digit bound", "Quantifier", "p{2,10}"),
         ("open range with a two-digit bound", "Quantifier", "p{10,}"), ("at-most range with a two-digit bound", "Quantifier", "[pq]{,16}"),
         ("range with three-digit bounds", "Quantifier", "p{100,250}"), ("literal then two-digit range", "Quantifier", "id\\d{,10}"),
+        ("escaped backslash then non-capturing group", "Other", "\\\\(?:pq|rw)"), ("escaped backslash then named group", "Other", "\\\\(?P<g>pq)"),
+        ("escaped backslash then flagged group", "Other", "\\\\(?i:pq)"), ("two escaped backslashes then group", "Other", "\\\\\\\\(?:pq)"),
+        ("escaped '(' then non-capturing group", "Other", "\\((?:pq)"),
         ("non-capturing group '(?:pq)'", "Group", "(?:pq)"), ("named group", "Group", "(?P<g>pq)"), ("flagged group", "Group", "(?i:pq)"),
     ]
     r = recvs[0]
